@@ -37,6 +37,10 @@ type AttrRaceScn struct {
 	Workers int           `json:"workers"`
 	Stalls  []simfs.Fault `json:"stalls,omitempty"`
 	Sched   SchedCfg      `json:"sched"`
+	// Recreate: the object is removed first (its handles stay with the clients: handles are per path) and
+	// Reqs[0] is then a CREATE of the same name by a caller that is NOT root, racing with the other callers'
+	// SETATTRs through their old handles: the only owner anybody may record is the creator's own identity
+	Recreate bool `json:"recreate,omitempty"`
 }
 
 func genAttrRace(r *simrt.Rand) *AttrRaceScn {
@@ -80,6 +84,16 @@ func genAttrRace(r *simrt.Rand) *AttrRaceScn {
 		}
 		sc.Reqs = append(sc.Reqs, q)
 	}
+	if r.Pct(30) {
+		sc.Recreate, sc.Dir = true, false
+		sc.Reqs[0] = AttrRaceReq{Cred: Cred{Flavor: 1, UID: uint32(1000 + r.Int(3)), GID: uint32(100 + r.Int(3))}, Mode: u32([]uint32{0o644, 0o600}[r.Int(2)]), DelayUs: []int{0, 0, 50, 400}[r.Int(4)]}
+		for i := 1; i < len(sc.Reqs); i++ {
+			sc.Reqs[i].Size = nil
+			if sc.Reqs[i].Mode == nil && !sc.Reqs[i].Mtime {
+				sc.Reqs[i].Mode = u32(0o640)
+			}
+		}
+	}
 	if r.Pct(60) {
 		for i, n := 0, 1+r.Int(2); i < n; i++ {
 			sc.Stalls = append(sc.Stalls, simfs.Fault{Op: []string{"Chmod", "Chown", "Stat", "Lstat", "Chtimes", ""}[r.Int(6)], Nth: 1 + r.Int(8), Kind: "stall",
@@ -95,7 +109,7 @@ func runAttrRace(t *testing.T, sc *SeqScn, trace bool) *Outcome {
 	res := Bubble(t, d.Sched.config(trace), nil, func() {
 		simrt.Event("scenario %x", simrt.Hash(hashBytes(mustJSON(sc))))
 		simrt.Probe("run_class.concurrent_setattr_on_one_object")
-		if len(d.Reqs) < 2 || d.Reqs[0].Cred.Flavor != 1 || d.Reqs[0].Cred.UID != 0 {
+		if len(d.Reqs) < 2 || d.Reqs[0].Cred.Flavor != 1 || (d.Reqs[0].Cred.UID != 0) != d.Recreate {
 			return // shrunk below what the class means
 		}
 		w := NewWorld(o)
@@ -115,8 +129,9 @@ func runAttrRace(t *testing.T, sc *SeqScn, trace bool) *Outcome {
 		defer w.Stop()
 		// every client gets its own connection and its own copy of the object's handle before the race starts
 		type rc struct {
-			cl *Client
-			fh []byte
+			cl  *Client
+			fh  []byte
+			dir []byte
 		}
 		cls := make([]rc, len(d.Reqs))
 		for i, q := range d.Reqs {
@@ -141,12 +156,64 @@ func runAttrRace(t *testing.T, sc *SeqScn, trace bool) *Outcome {
 				o.Inconclusive = fmt.Sprintf("lookup obj: %v", err)
 				return
 			}
-			cls[i] = rc{cl, ol.FH}
+			cls[i] = rc{cl, ol.FH, dl.FH}
+		}
+		if d.Recreate {
+			if x, _, err := cls[1].cl.NFS(nfsclient.NFSProcRemove, nfsclient.ArgsDirOp(cls[1].dir, name)); err != nil || x == nil {
+				o.Inconclusive = fmt.Sprintf("remove: %v", err)
+				return
+			}
 		}
 		for _, f := range d.Stalls {
 			w.FS.AddFault(f)
 		}
 		mark := w.FS.LastSeq()
+		if d.Recreate {
+			// the creator's identity is the only owner anybody may record
+			cu, cg := d.Reqs[0].Cred.UID, d.Reqs[0].Cred.GID
+			done := make(chan int, len(d.Reqs))
+			createOK := false
+			for i, q := range d.Reqs {
+				i, q := i, q
+				simrt.Go(fmt.Sprintf("recreate-client-%d", i), func() {
+					defer simrt.Send("recreate.done", done, i)
+					simrt.Sleep(time.Duration(q.DelayUs) * time.Microsecond)
+					if i == 0 {
+						res, err := cls[0].cl.Create(cls[0].dir, name, 0, nfsclient.Sattr3{Mode: q.Mode}, [8]byte{})
+						createOK = err == nil && res != nil && res.Status == 0
+						return
+					}
+					sa := nfsclient.Sattr3{Mode: q.Mode, UID: q.UID, GID: q.GID}
+					if q.Mtime {
+						sa.Mtime = nfsclient.SetTime{How: nfsclient.SetToClientTime, T: nfsclient.NFSTime{Sec: uint32(1700000000 + i), Nsec: 7}}
+					}
+					cls[i].cl.Setattr(cls[i].fh, sa)
+				})
+			}
+			for range d.Reqs {
+				simrt.Recv("recreate.wait", done)
+			}
+			o.NonTrivial = true
+			for _, c := range w.FS.CallsSince(mark) {
+				if c.Op != "Chown" && c.Op != "Lchown" {
+					continue
+				}
+				o.Tick()
+				if uint32(c.UID) != cu || uint32(c.GID) != cg {
+					o.Vio("C11.ownership-recorded-that-no-root-request-asked-for", "class=concurrent-create-and-setattr",
+						"the backend was asked to record owner %d:%d for %s; nobody in this run is root: the file is being created by %d:%d while %d other callers SETATTR it through handles they held for the name before it was removed (%s)",
+						c.UID, c.GID, c.Path, cu, cg, len(d.Reqs)-1, mustJSON(d.Reqs[1:]))
+					break
+				}
+			}
+			if n := w.FS.Lookup("/d/" + name); n != nil && createOK {
+				o.Tick()
+				if n.UID != cu || n.GID != cg {
+					o.Vio("C11.new-object-not-owned-by-its-creator", "class=concurrent-create-and-setattr", "the CREATE by %d:%d was answered NFS3_OK, yet after all requests have been answered the backend records owner %d:%d", cu, cg, n.UID, n.GID)
+				}
+			}
+			return
+		}
 		// The server does not read owners from the backend (absfs has no such call): for a field the root request
 		// leaves alone, its Chown carries whatever the server remembers for the object, so only the fields the
 		// root request sets are judged.
